@@ -18,6 +18,7 @@ const SLOTS: usize = 1 << 20;
 const GUARD: usize = 16;
 const GUARD_BYTE: u8 = 0xA5;
 const POISON: u8 = 0xDD;
+const JUNK: u8 = 0x55;
 const QUARANTINE_MAX_BLOCK: usize = 1 << 16;
 const QUARANTINE_MAX_TOTAL: usize = 256 << 20;
 // quarantined blocks keep their table entry; the quarantine is a FIFO ring: when it is full the oldest
@@ -227,6 +228,11 @@ unsafe impl GlobalAlloc for Ledger {
         }
         std::ptr::write_bytes(p.add(layout.size()), GUARD_BYTE, GUARD);
         let tracked = tracking();
+        if tracked {
+            // what a recycled block looks like: code that forgets to initialise part of a buffer (a terminator, a length)
+            // must not pass because fresh pages happen to be zero.  (alloc_zeroed zeroes after this.)
+            std::ptr::write_bytes(p, JUNK, layout.size());
+        }
         let e = Entry {
             ptr: p as usize,
             size: layout.size(),
